@@ -15,6 +15,12 @@ COLL = "c1"
 
 
 def client_op(kind, variant, who):
+    if variant == "kv2":
+        # the second client works on another key of the collection: ordering across keys
+        op = dict(client_op(kind, "kv", who))
+        if who == "p2":
+            op["key"] = "k2"
+        return op
     if variant == "subdoc":
         path = {"p1": "a", "p2": "n", "p3": "v"}[who]
         if kind == "update":
@@ -186,6 +192,8 @@ def run(tier, seed, vh, only_paths=None, mode=None):
                 variants = ["kv"]
                 if scen in ("join", "resume", "order") and "set" in sc["prog"].values():
                     variants = ["kv", "kvadd"]
+                if scen in ("join", "order"):
+                    variants = variants + ["kv2"]
                 if scen in ("race", "race3"):
                     variants = ["kv", "subdoc", "xattr", "xtomb", "kvopt", "kvadd"]
                 for v in variants:
